@@ -218,12 +218,12 @@ func TestBounded_C12(t *testing.T) {
 		}
 	}
 	bStat("C12.fault_cases", cases)
-	bCursorFaults(t)
+	bCursorFaultsFor(t, "C12")
 }
 
 // bCursorFaults: a navigation step that fails on a store fault leaves the cursor where it was:
 // the same step, retried after the fault has cleared, continues the walk as if nothing happened.
-func bCursorFaults(t *testing.T) {
+func bCursorFaultsFor(t *testing.T, prop string) {
 	steps := 0
 	seeds := 6
 	if bTier() == "thorough" {
@@ -312,16 +312,16 @@ func bCursorFaults(t *testing.T) {
 				steps++
 				dir := map[bool]string{true: "Forward", false: "Backward"}[forward]
 				if msg != "" {
-					bViolation(t, "C12", "cursor-retry-"+dir, "seed=%d bf=%d contents %s\n%s walk, store Load failing during step %d: %s (visited %v)", seed, bf, bModelString(model), dir, at, msg, got)
+					bViolation(t, prop, "cursor-retry-"+dir, "seed=%d bf=%d contents %s\n%s walk, store Load failing during step %d: %s (visited %v)", seed, bf, bModelString(model), dir, at, msg, got)
 					continue
 				}
 				if failedWith != nil && fmt.Sprint(got) != fmt.Sprint(want) {
-					bViolation(t, "C12", "cursor-moved-on-error-"+dir, "seed=%d bf=%d contents %s\n%s step %d failed with %q (the %d-th store Load of that step was made to fail); after retrying it the walk visited %v, expected %v", seed, bf, bModelString(model), dir, at, failedWith, nth, got, want)
+					bViolation(t, prop, "cursor-moved-on-error-"+dir, "seed=%d bf=%d contents %s\n%s step %d failed with %q (the %d-th store Load of that step was made to fail); after retrying it the walk visited %v, expected %v", seed, bf, bModelString(model), dir, at, failedWith, nth, got, want)
 				}
 			}
 		}
 	}
-	bStat("C12.cursor_fault_walks", steps)
+	bStat(prop+".cursor_fault_walks", steps)
 	// Ceil / Min / Max that fail on a store fault and are retried on the same cursor
 	placements := 0
 	for seed := 1; seed <= seeds; seed++ {
@@ -387,12 +387,12 @@ func bCursorFaults(t *testing.T) {
 				}
 				placements++
 				if msg != "" || fmt.Sprint(got) != fmt.Sprint(want) {
-					bViolation(t, "C12", "ceil-retry", "seed=%d bf=%d contents %s\nCeil(%d) failed with %q (its %d-th store Load failing); retried on the same cursor and walked forward: visited %v %s, expected %v", seed, bf, bModelString(model), probe, failedWith, nth, got, msg, want)
+					bViolation(t, prop, "ceil-retry", "seed=%d bf=%d contents %s\nCeil(%d) failed with %q (its %d-th store Load failing); retried on the same cursor and walked forward: visited %v %s, expected %v", seed, bf, bModelString(model), probe, failedWith, nth, got, msg, want)
 				}
 			}
 		}
 	}
-	bStat("C12.cursor_fault_placements", placements)
+	bStat(prop+".cursor_fault_placements", placements)
 }
 
 // ---------------------------------------------------------------------------------------------
